@@ -269,6 +269,8 @@ func (s *Server) publishDiagnostics(ctx context.Context, docURI protocol.Documen
 	}
 	resolved, loadErrors := s.loader.LoadFromContent(path, content)
 	s.resolved.Store(docURI, resolved)
+	// templates computed from the previous tree of this document are out of date
+	s.payeeTemplatesCache.Delete(docURI)
 
 	diagnostics := s.analyze(content, resolved)
 
